@@ -50,7 +50,13 @@ MEMBERS = ['BOLD', 'FAINT', 'NO_BOLD_FAINT', 'RED', 'BLUE', 'FG_DEFAULT', 'UNDER
 
 def good_sargs(rng):
     """settings forms that scrub without error (conflicts are common on purpose)"""
-    k = rng.randrange(16)
+    k = rng.randrange(17)
+    if k == 16:
+        # codes given as a bool, an int subclass, an IntEnum member: they stand for their integer value
+        one = lambda: rng.choice([('intlike', 1, 'bool'), ('intlike', rng.choice([1, 31, 4, 9, 214, 38, 5, 2, 0]), 'sub'),
+                                  ('intlike', rng.choice([1, 3, 4, 31, 44]), 'enum')])
+        return rng.choice([one(), ('list', [('int', 38), ('int', 5), one()]), ('tuple', [one(), ('str', 'red')]),
+                           ('list', [one(), one()]), ('list', [('str', '38;5'), one()])])
     if k == 0: return ('member', rng.choice(MEMBERS))
     if k == 1: return ('str', rng.choice(['red', 'Bold', 'bg-blue', 'fg red', 'faint', 'no_bold_faint', 'blue',
                                           'underline', 'double underline', 'fg_default', 'italic', 'UL_Blue']))
@@ -778,6 +784,33 @@ class Runner:
                 r2 = self.call(resumed)
                 if r2[0] != 'ok' or r2[1] != pre.text:
                     viol.append(('C04', 'iter_eq', 'iterating an %s in two goes yields %r for %r' % (nm, r2[1], pre.text)))
+            # the value changes while it is iterated (in place: shorter, longer, other text): every item is the
+            # character then at its index, and the iteration ends at the then current length — it never raises
+            if len(pre.text) >= 2:
+                y = x.copy()
+                how = self.rng.choice(['clip', 'assign_shorter', 'assign_longer', 'rstrip', 'append'])
+                at = self.rng.randrange(0, len(pre.text))
+                def mutating():
+                    got, n = [], 0
+                    for c in y:
+                        got.append((c.base_str, y._s[n] if n < len(y._s) else None))
+                        if n == at:
+                            if how == 'clip': y.clip(0, max(1, len(y._s) // 2), inplace=True)
+                            elif how == 'assign_shorter': y.assign_str(y._s[:max(1, len(y._s) - 2)].upper())
+                            elif how == 'assign_longer': y.assign_str(y._s + 'zz')
+                            elif how == 'rstrip': y.assign_str(y._s[:n + 1] + '   '); y.rstrip(inplace=True)
+                            else: y.__iadd__('q')
+                        n += 1
+                        if n > 3 * len(pre.text) + 8:
+                            break
+                    return got, n
+                r3 = self.call(mutating)
+                if r3[0] != 'ok':
+                    viol.append(('C04', 'iter_mutating', 'iterating %r while it is edited in place (%s at item %d) raises %r' % (pre.text, how, at, r3[1])))
+                    viol.append(('C09', 'iter_mutating', 'iterating %r while it is edited in place (%s at item %d) raises %r' % (pre.text, how, at, r3[1])))
+                elif any(a_ != b_ for a_, b_ in r3[1][0]) or r3[1][1] != max(at + 1, len(y._s)):
+                    viol.append(('C04', 'iter_mutating', 'iterating %r while it is edited in place (%s at item %d): items %r, final text %r' % (
+                        pre.text, how, at, r3[1][0], y._s)))
         self.emit('iter', inp, self.outcome_line(out, P.ok_astrs), 'iter %r' % x._s, viol)
 
     # ----------------------------------------------------------------- concatenation
@@ -1679,6 +1712,29 @@ class Runner:
         whose bounds are computed integers at those points (CPython caches only small ints: `is` on an
         index, a dict keyed by position reused across objects, … show up only there)"""
         rng = self.rng
+        if rng.random() < 0.35:
+            # many settings on one range: a change point with dozens of parameters (each colour is 3 or 5 of them),
+            # rendered with every flag combination — what a terminal does with the bytes is the oracle
+            t = self.text(3, 7)
+            x = self.A(t)
+            a = rng.randrange(0, max(1, len(t) - 1)); b = rng.randint(a + 1, len(t))
+            cols = ['rgb(%d,%d,%d)', 'bg_rgb(%d,%d,%d)', 'ul_rgb(%d,%d,%d)', 'dul_rgb(%d,%d,%d)']
+            for _ in range(rng.randint(6, 12)):
+                r = rng.random()
+                if r < 0.6:
+                    sa = ('str', rng.choice(cols) % (rng.randrange(256), rng.randrange(256), rng.randrange(256)))
+                elif r < 0.8:
+                    sa = ('str', rng.choice(['color256(%d)', 'bg_color256(%d)', 'ul_color256(%d)']) % rng.randrange(256))
+                else:
+                    sa = ('str', rng.choice(['bold', 'italic', 'underline', 'blink', 'overlined', 'crossed_out', 'faint']))
+                self.do_apply(x, sa, a, b, rng.random() < 0.8)
+                if self.tainted:
+                    return
+            for opt in (False, True):
+                self.do_tostr(x, None, opt, rng.random() < 0.5, rng.random() < 0.8)
+            if rng.random() < 0.5:
+                self.do_slice(x, a, b, 'getitem', False)
+            return
         n0 = rng.randint(257, 290)
         x = self.A('a' * n0 + self.text(4, 8))
         n = len(x._s)
@@ -1916,7 +1972,7 @@ class Runner:
     BASE_W = {'new': 3, 'copy': 2, 'apply': 10, 'remove': 7, 'clear': 1, 'slice': 7, 'index': 2, 'iter': 1,
               'concat': 8, 'join': 2, 'pad': 6, 'tostr': 8, 'find': 4, 'settingsat': 2, 'simplify': 3,
               'roundtrip': 3, 'strip': 3, 'affix': 2, 'split': 4, 'replace': 4, 'case': 2, 'assign': 2,
-              'expandtabs': 1, 'query': 2, 'match': 3, 'twin': 3, 'long': 0.4}
+              'expandtabs': 1, 'query': 2, 'match': 3, 'twin': 3, 'long': 0.6}
 
     def run_op(self, nm):
         """run one generated operation; a harness failure while observing a value is a finding
@@ -2063,8 +2119,8 @@ def simple_texts(a, mod):
         return None
     out = []
     for q in a[1]:
-        if q[0] == 'int' and q[1] in SIMPLE_CODES:
-            out.append(str(q[1]))
+        if q[0] in ('int', 'intlike') and int(q[1]) in SIMPLE_CODES:
+            out.append(str(int(q[1])))
         elif q[0] == 'member':
             ts = [str(s_) for s_ in mod.AnsiFormat[q[1]].ansi_settings]
             if len(ts) != 1 or not ts[0].isdigit() or int(ts[0]) not in SIMPLE_CODES:
@@ -2078,6 +2134,7 @@ def a_truthy(a):
     t = a[0]
     if t == 'str': return bool(a[1])
     if t == 'int': return a[1] != 0
+    if t == 'intlike': return int(a[1]) != 0
     if t in ('list', 'tuple'): return bool(a[1])
     if t == 'bad': return bool(a[1])
     return True
